@@ -47,6 +47,78 @@ CHECKS = {
    "DESIGN.md §3 C38"),
 }
 
+
+def U(universe, oracle, bounds, ref, level="exploration", tech=None):
+    tech = tech or ("small-scope exhaustive enumeration of " + universe.split(";")[0] + " on the real compiler/VM against a reference model")
+    return (level, tech, universe + " Oracle: " + oracle, bounds, ref)
+
+CHECKS.update({
+ "C03": U("all programs `context^k x payload` (k <= 2 quick / 3 thorough; contexts fn, member fn, lambda, task, while, for, match arm, if, operand block; 27 payload kinds incl. break/continue/return/?/!, assignments to outer variables/fields/elements/user-Index, tasks, lambdas, scrutinee-only uses, user Num operators), each compiled standalone;",
+          "check() gives diagnostics, or check() is Ok and compile_bytecode() is Ok and the program runs under budget 1 without a VM fault; a sanity guard requires the no-op payload to be accepted in every context.",
+          "Bounded nesting depth; four constructs the checker lets through but the translator does not implement are open known findings keyed by payload kind + failure class (known_findings.json).", "DESIGN.md §3 C03"),
+ "C12": U("all arm lists up to length 2-3 (quick) / 2-4 (thorough) over 5-58 patterns for each of 17 scrutinee types (bool, void, int/float/string literals, tuples, structs incl. void field and generic, enums with positional/named/void payloads, option, nested option, result), plus cover lists, matches nested in arm bodies / scrutinees / task blocks;",
+          "brute-force matcher over the finite value domain: an accepted match has an arm for every value (also at run time, every value fed to the compiled match); a match reported non-exhaustive has an unmatched value and every listed witness covers one.",
+          "Bounded pattern depth 2 and arm-list length; verdicts are read per match from check_lsp diagnostics by byte range (cross-checked on every 40th case standalone).", "DESIGN.md §3 C12-C14", "model_checking",
+          "exhaustive enumeration of (type, arm list) states and (arm list, value) transitions; the real checker's verdict and the compiled match compared with a brute-force matcher on every one"),
+ "C13": U("the C12 universe of (type, arm list) pairs including alternative spellings of equal float literals;",
+          "the set of arms the checker reports redundant equals the set of arms no value reaches first in the brute-force model.",
+          "Same bounds as C12.", "DESIGN.md §3 C12-C14", "model_checking",
+          "exhaustive enumeration of (type, arm list) states; the real checker's redundancy verdict compared with a brute-force reachability model on every one"),
+ "C14": U("the C12 universe of accepted matches x every value of the scrutinee type, plus 906 let/var/for destructuring cases over 11 product types;",
+          "the compiled code runs the first matching arm and every binding (or-pattern sides, named/positional fields, nested tuples, void components) equals the model's.",
+          "Same bounds as C12.", "DESIGN.md §3 C12-C14"),
+ "C16": U("the float boundary set F (38 quick / 105 thorough values incl. +-0, subnormals, 2^53 neighbours, +-MAX, +-inf, NaNs) crossed with + - * / ^, six comparisons, 13 unary intrinsics, atan2, pow, conversions, in six operand forms (host-fed variables, literals, compound assignment; optimizer on/off);",
+          "Rust f64 bit-exact (observed through the host as bits); division by +-0.0 must raise division by zero in every form; comparisons must satisfy the total-order laws and agree across forms.",
+          "Grid not all pairs; transcendental functions are compared with the same std functions (plumbing, not libm accuracy); int_from_float outside (-2^63,2^63) and round ties unspecified.", "DESIGN.md §3 C16"),
+ "C18": U("all parameter lists of arity <= 2 (quick) / 3 (thorough) with every subset of defaults x 7 callee forms (free fn, method, qualified method, static method, struct constructor, variant constructor, leading-dot variant) x every valid call shape (positional prefix + named rest in any order, defaults omitted) x 3 tracing strata, plus every single-edit misuse shape;",
+          "valid shapes behave as the positional call with defaults filled in (arguments traced in parameter order); misuse shapes get a diagnostic, never a panic or silent acceptance.",
+          "Bounded arity; 'too many positional arguments' is recorded, not asserted (not in the statement's misuse list).", "DESIGN.md §3 C18"),
+ "C19": U("all programs with lambda nesting depth 2 (quick) / 3 (thorough), 0-2 captured variables with every set of reading levels, every reassignment pattern (before creation / between creation and call / between calls), two roots (function body, top level), each lambda called twice;",
+          "capture by value at creation, fresh locals per invocation.", "Bounded depth and two variables per program.", "DESIGN.md §3 C19"),
+ "C20": U("the full table of 15 binding forms x 6 assignment operators x 3 targets (variable, field, element) (x nested-if position in thorough), each program compiled standalone;",
+          "let forms and lambda captures are rejected with a diagnostic; var, element and field targets are accepted with the modelled effect; other forms are rejected or accepted with the plain effect; never a panic.",
+          "int-typed targets only.", "DESIGN.md §3 C20"),
+ "C21": U("all import layouts of three files (7 x 7 import forms x main's own declaration) with positive/negative/clash programs, plus all nests of <= 2 (quick) / 3 (thorough) scopes from block/if/while/for/arm/lambda with every let-before/after pattern;",
+          "a model resolver predicts the chosen declaration (observed by its tag), an unresolved-identifier diagnostic, or a clash diagnostic; an environment-stack model predicts every read in nested scopes.",
+          "Bounded file/name counts; importing a name the file lacks, same-scope redeclaration and unaliased fully qualified names are unspecified.", "DESIGN.md §3 C21"),
+ "C22": U("23 generic functions x all ordered pairs of 10 (quick) / 21 (thorough) instantiation types satisfying their constraints, plus direct operator / for / index uses on user types;",
+          "differential: each generic call must produce the same trace (tags emitted by the user implementations + rendered results) as its hand-monomorphised copy, and no tag of a foreign type may appear.",
+          "Bounded type list; generics over Iterable cannot be written on this tree; `c[i] += v` through a user Index is an open known finding.", "DESIGN.md §3 C22"),
+ "C23": U("2 carriers x (?, !) x success/failure x 2 function arities x 30 syntactic positions (statement, let, operands at pending depth 1-4, call arguments, array/tuple/struct elements, index, conditions, scrutinee, loop bodies, assignments, lambda body) with a trace emit after every statement;",
+          "`e?` yields the payload or returns none/err at once without running the rest; `e!` yields the payload or stops with a panic error.", "Bounded positions.", "DESIGN.md §3 C23"),
+ "C24": U("all unordered pairs and (on subsets) ordered triples of values of bool, void, 28 small tuple types, arrays of length <= 2, a 57-value int grid, 17 strings, 20 floats (incl. NaNs, +-0, +-inf), in up to 5 operand forms;",
+          "the truth tables emitted by the real operators must satisfy reflexivity/symmetry/transitivity of ==, != = not ==, trichotomy, <= / >= consistency, transitivity of <, and equal => equal hash (per interface actually implemented).",
+          "Triples on <= 12-value subsets; no reference order imposed.", "DESIGN.md §3 C24"),
+ "C25": U("(a) the text of sort_by/insertion_sort_by/merge_by cut from the working tree's prelude, instantiated with RUN=2 (1,3 in thorough): ALL arrays of length <= 7 (quick) / 9 (thorough) over {0,1,2} with stability tags; (b) the unmodified prelude through sort/sort_by/sort_by_key at lengths around every multiple of RUN=32 over structured families (sorted, reversed, rotations, organ pipe, all 0/1 counts, every single displacement);",
+          "Rust stable sort by key, element for element.", "(b) is exhaustive over the stated families only; the algorithm is assumed parametric in RUN.", "DESIGN.md §3 C25"),
+ "C26": U("breadth-first search over array operation histories (84 ops: push/pop/len/get/set/swap/remove/clear/find/contains/clone-then-mutate/iterate/filled, indices in {-1,0,1,2,len-1,len}) for element types int/string/array<int>/void from three start states, depth 5 (quick) / 8 (thorough), plus literal-index straight-line programs;",
+          "Vec model compared after every step (result, len, every element); out-of-range access and pop on empty must stop with a clean runtime error.",
+          "States merged on the model list (capacity unobservable); remove is modelled as swap-remove (order-preserving also accepted).", "DESIGN.md §3 C26", "model_checking",
+          "explicit-state BFS over operation histories; every transition replays its history on the real VM and is compared with a Vec model"),
+ "C27": U("breadth-first search over map/set operation histories in 14 families (colliding int keys, boundary keys incl. MIN, a constant-hash user key, strings; resize and slot-reuse start states), depth 3-6 (quick) / 4-8 (thorough), full probe of every key after every op;",
+          "Rust HashMap/HashSet on every step; get / m[k] of a missing key stops with a panic error.",
+          "States merged on (structural event sequence, contents); depth 9 on >= 5-key alphabets not reached.", "DESIGN.md §3 C27", "model_checking",
+          "explicit-state BFS over operation histories of core/map and core/set (read from the working tree), every transition executed on the real VM against a HashMap/HashSet model"),
+ "C28": U("all values of nested built-in types of depth <= 3 (int/bool/void/string/array/tuple 2-4/option/result, containers of size 0-2) rendered through `..` on both sides, .str(), ToString.str, print and println;",
+          "model printer from the property statement (decimal ints, true/false, nil, verbatim strings, `[ a, b ]`, `(a, b)`, some(x)/none, ok(x)/err(e)).",
+          "Floats not asserted; the empty array's spelling is only required to be consistent.", "DESIGN.md §3 C28"),
+ "C30": U("integer literal spellings (boundary grid, every `_` placement, negated, leading zeros, 26 out-of-range spellings), float spellings (all I.F with <= 3/4 digits, round-half families of 17-20 digits, 300-400 digit strings), all strings of length <= 3 (quick) / 4 (thorough) over a 13-character menu in single, double and triple quotes, multi-line layouts;",
+          "ints decimal; floats = correctly rounded binary64 (str::parse cross-checked by an exact-decimal bracket); strings byte-exact through the host; out-of-range literals give a diagnostic.",
+          "Multi-line indentation rules are asserted only where the repository's own multiline_string tests pin them; other layouts assert only that no content character is lost.", "DESIGN.md §3 C30"),
+ "C31": U("all typed expression trees of depth <= 3 over the 15 binary and 2 prefix operators with variable / literal / negative-literal leaves, printed with minimal parentheses for the documented table and round-tripped through a reference Pratt parser;",
+          "value of the tree under a model evaluator using the documented precedence table and left associativity.",
+          "The stratum 'negative literal directly followed by % or ^' is an open known finding; a unary minus as right operand of a tighter operator followed by a tighter operator is unspecified.", "DESIGN.md §3 C31"),
+ "C32": U("call chains of depth <= 2 (quick) / 3 (thorough) over named functions, methods and lambdas spread over three files, five failing operations placed at every statement position, with 0/1/5/40 non-ASCII characters (and 4-byte characters) above the site;",
+          "error kind, then file:line and function of the failing statement, then the call site of every active call, innermost first (the generator knows every line it emitted).",
+          "For `!` on none one leading prelude frame is allowed.", "DESIGN.md §3 C32"),
+ "C35": U("all nests of <= 2 (quick) / 3 (thorough) scopes (block, fn, lambda, match arm, for) x 1-2 names x every shadowing pattern, each binding initialised with a distinct constant and each use emitted; definition_at queried at every byte of every use; 82 hover programs;",
+          "behavioural ground truth: the constant the compiled program printed names the binding used; definition_at must return that binding's range and type_at the expected type string.",
+          "Hover strings asserted only for forms pinned by the repository's lsp tests.", "DESIGN.md §3 C35"),
+ "C36": U("echo functions for every type of depth <= 1 (quick) / 2 (thorough) over int/float/bool/string/void/array/tuples/option/result/#host structs and enums (incl. void fields), 289 two-argument swap functions, value grids of 2-3 boundary values per leaf; the bindings are generated from the working tree and compiled into a scratch crate at check time;",
+          "the host receives exactly the Rust value corresponding to the Abra value and Abra gets back exactly what the host returned (compared structurally on both sides).",
+          "Needs a ~40 s build of the generated crate per /repo revision; bounded type depth.", "DESIGN.md §3 C36"),
+})
+
 NOT_YET = "no check registered in this revision of /verif yet (planned in DESIGN.md §3; the engine module has not been built)"
 
 def main():
